@@ -323,7 +323,7 @@ theorem redirects_flat : ∀ (rs : List Redir) (cwd : String) (r : Bool),
       | some t =>
         simp only [aRedirects, flatRedirects, S_append, L_append]
         rw [ih, word_flat t cwd r]
-        cases r <;> simp [atomDecisions]
+        cases r <;> cases hamp : Py.startsWith t.value "&" <;> simp [atomDecisions, hamp]
     | other _ => simpa [aRedirects, flatRedirects] using ih
 
 theorem casePats_flat : ∀ (ps : List CasePat) (cwd : String) (r : Bool),
